@@ -1,9 +1,32 @@
 //! hx_c34: row id sequences and the row id index (C34).
+mod gen;
+mod index;
+mod model;
 mod probe;
+mod unit;
+
+use hxlib::util::{Args, Sink};
+
+fn c34(args: &Args) -> i32 {
+    let mut sink = Sink::new("C34", &args.out);
+    let mut st = unit::Streams::new();
+    unit::run(args, &mut sink, &mut st);
+    let mut ix = index::new_stream();
+    index::run(args, &mut sink, &mut ix);
+    sink.add(st.build);
+    sink.add(st.query);
+    sink.add(st.segop);
+    sink.add(st.seqop);
+    sink.add(st.rechunk);
+    sink.add(ix);
+    sink.finish();
+    0
+}
 
 fn main() {
     let (sub, args) = hxlib::util::Args::parse();
     let code = match sub.as_str() {
+        "c34" => c34(&args),
         "probe" => probe::run(&args),
         _ => {
             eprintln!("unknown subcommand {sub}");
